@@ -108,7 +108,7 @@ class AuditRun:
                 self.notify("before_phantoms", contests)
                 self.cvr_list, self.n_phantoms = self.call(
                     "make_phantoms", ns.CVR.make_phantoms, audit=self.audit, contests=contests, cvr_list=self.cvr_list,
-                    prefix="phantom-1-", tally_pool=self.case["phantom_label"]["tally_pool"],
+                    prefix=self.case.get("phantom_prefix", "phantom-1-"), tally_pool=self.case["phantom_label"]["tally_pool"],
                     pool=self.case["phantom_label"]["pool"])
                 self.notify("after_phantoms", contests)
             else:
@@ -158,6 +158,12 @@ class AuditRun:
                 for con in contests.values():
                     self.call("find_margins_from_tally", con.find_margins_from_tally)
                 self.out.probe("margins from tallies")
+            elif self.case.get("margin_route") == "each":
+                # the per-assertion route to the same margins
+                for con in contests.values():
+                    for asn in con.assertions.values():
+                        self.call("set_margin_from_cvrs", asn.set_margin_from_cvrs, audit=self.audit, cvr_list=self.cvr_list)
+                self.out.probe("margins set assertion by assertion")
             else:
                 self.call("set_all_margins_from_cvrs", ns.Assertion.set_all_margins_from_cvrs, audit=self.audit,
                           contests=contests, cvr_list=self.cvr_list)
@@ -212,27 +218,7 @@ class AuditRun:
                     c.sampled = False
                 out.faults["F14 rehearsal draw discarded, cards renumbered"] += 1
                 out.shape("rehearsal")
-            if case["numbering"]["mode"] == "sha256":
-                self.call("assign_sample_nums", ns.CVR.assign_sample_nums, self.cvr_list, ns.SHA256(case["numbering"]["seed"]))
-            else:
-                pt = phantom_ticket_stream(case)
-                nums = [case["tickets"][c.id] if c.id in case["tickets"] else next(pt) for c in self.cvr_list]
-                if case["numbering"]["mode"] == "rank":
-                    # small consecutive sample numbers 0..n-1 (as the library's own test assigns them)
-                    order = sorted(range(len(nums)), key=lambda i: nums[i])
-                    rk = [0] * len(nums)
-                    for pos, i in enumerate(order):
-                        rk[i] = pos
-                    nums = rk
-                if case["numbering"]["mode"] == "near":
-                    # distinct 256-bit numbers that agree in their leading bits (they are equal as floats)
-                    order = sorted(range(len(nums)), key=lambda i: nums[i])
-                    base = (case["numbering"]["seed"] << 180) | (1 << 250)
-                    nn = [0] * len(nums)
-                    for pos, i in enumerate(order):
-                        nn[i] = base + 3 * pos
-                    nums = nn
-                self.call("assign_sample_nums", ns.CVR.assign_sample_nums, self.cvr_list, SchedPrng(nums))
+            self.assign_numbers()
             nums = [c.sample_num for c in self.cvr_list]
             if len(set(nums)) != len(nums):
                 raise Abort("sample number collision")
@@ -247,6 +233,31 @@ class AuditRun:
             # as the worked notebooks do before drawing anything: ask for the initial sample sizes
             self.call("Audit.find_sample_size(initial)", self.audit.find_sample_size, self.contests, cvrs=self.cvr_list, fatal=False)
             out.probe("initial sample size estimated before the first draw")
+
+    def assign_numbers(self):
+        """the draw order: the PRNG is created from the seed and every record gets its number, in list order"""
+        ns, case = self.ns, self.case
+        if case["numbering"]["mode"] == "sha256":
+            self.call("assign_sample_nums", ns.CVR.assign_sample_nums, self.cvr_list, ns.SHA256(case["numbering"]["seed"]))
+            return
+        pt = phantom_ticket_stream(case)
+        nums = [case["tickets"][c.id] if c.id in case["tickets"] else next(pt) for c in self.cvr_list]
+        if case["numbering"]["mode"] == "rank":
+            # small consecutive sample numbers 0..n-1 (as the library's own test assigns them)
+            order = sorted(range(len(nums)), key=lambda i: nums[i])
+            rk = [0] * len(nums)
+            for pos, i in enumerate(order):
+                rk[i] = pos
+            nums = rk
+        if case["numbering"]["mode"] == "near":
+            # distinct 256-bit numbers that agree in their leading bits (they are equal as floats)
+            order = sorted(range(len(nums)), key=lambda i: nums[i])
+            base = (case["numbering"]["seed"] << 180) | (1 << 250)
+            nn = [0] * len(nums)
+            for pos, i in enumerate(order):
+                nn[i] = base + 3 * pos
+            nums = nn
+        self.call("assign_sample_nums", ns.CVR.assign_sample_nums, self.cvr_list, SchedPrng(nums))
 
     # ------------------------------------------------------------------ rounds
     def sizes_for(self, rnd):
@@ -323,6 +334,23 @@ class AuditRun:
                           contests=self.contests, cvr_list=self.cvr_list)
             out.probe("pool means / margins recomputed between rounds")
             out.shape("refresh")
+        if rnd.get("renumber") and not self.polling:
+            # the round is redrawn literally from scratch: same seed, numbers assigned again (they must come out the same)
+            before = [c.sample_num for c in self.cvr_list]
+            self.assign_numbers()
+            out.probe("sample numbers assigned again from the same seed before a later round")
+            out.shape("renumber")
+            if [c.sample_num for c in self.cvr_list] != before:
+                self.notify("on_renumber_changed", r, before)
+        if rnd.get("margin_nudge") and not self.polling and not self.case.get("margins_via_tally"):
+            # a reported margin corrected in its seventh digit (a county-sized contest, one record amended): assigned directly
+            for con in self.contests.values():
+                for asn in con.assertions.values():
+                    if asn.margin is not None and asn.margin > 1e-3:
+                        asn.margin = float(asn.margin) * (1 - 2e-7)
+            out.probe("margins corrected in the seventh digit between rounds")
+            out.shape("nudge")
+            self.notify("after_remargin", r)
         sizes = self.sizes_for(rnd)
         if (rnd.get("size_from_estimate") and r > 0 and not self.polling and self.use_style and self.data_hist
                 and not rnd.get("rebuild")):
@@ -443,6 +471,27 @@ class AuditRun:
         out.ev("done", bool(done))
         out.shape(f"done={bool(done)}")
         self.notify("after_pvalues", r, float(p_max), bool(done))
+        if rnd.get("reestimate") and not self.polling and self.use_style and not self.case.get("margins_via_tally"):
+            # the estimate is looked up again after the evaluation (as the notebooks do to plan the next round), and the
+            # same sample is converted to data once more: nothing about the sample has changed
+            if rnd["reestimate"] == "planning":  # the planning estimate (assumed error rates, no manual records)
+                res = self.call("Audit.find_sample_size(planning, after evaluation)", self.audit.find_sample_size, self.contests,
+                                cvrs=self.cvr_list, fatal=False)
+            else:
+                res = self.call("Audit.find_sample_size(after evaluation)", self.audit.find_sample_size, self.contests,
+                                cvrs=self.cvr_list, mvr_sample=mvr_sample, cvr_sample=cvr_sample, fatal=False)
+            if res is not None:
+                again = {}
+                for cid, con in self.contests.items():
+                    for key, asn in con.assertions.items():
+                        d2 = self.call("mvrs_to_data(again)", asn.mvrs_to_data, mvr_sample, cvr_sample, fatal=False)
+                        if d2 is not None:
+                            again[(cid, key)] = ([float(x) for x in d2[0]], float(d2[1]))
+                out.probe("estimate looked up after the evaluation, sample converted again")
+                out.ev("data-again", {f"{k[0]}/{k[1]}": v for k, v in again.items()})
+                self.notify("after_reestimate", r, again)
+                for cid, con in self.contests.items():  # the driver sets the sizes for the next draw itself
+                    con.sample_size = self.last_sizes.get(cid, con.sample_size)
 
     def run(self):
         try:
